@@ -9,7 +9,7 @@ PROPS = {
     'C06': dict(
         modules=['contracts.dtw_matrix_py', 'contracts.dtw_matrix_c'],
         contracts=['dtw._distance_matrix_length', 'dtw._complete_block', 'dtw._distance_matrix_idxs',
-                   'dtw.distance_matrix_python', 'dtw.distance_array_index',
+                   'dtw.distance_matrix_python', 'dtw.distance_array_index', 'dtw.distances_array_to_matrix',
                    'dd_dtw.c::dtw_block_is_valid', 'dd_dtw.c::dtw_distances_length',
                    'dd_dtw.c::dtw_distances_ptrs', 'dd_dtw.c::dtw_distances_ndim_ptrs',
                    'dd_dtw.c::dtw_distances_matrix', 'dd_dtw.c::dtw_distances_ndim_matrix',
